@@ -2,6 +2,7 @@ package main
 
 import (
 	"fmt"
+	"go/ast"
 	"go/types"
 	"strings"
 
@@ -72,7 +73,17 @@ func (x *Exec) callStatic(st *State, ret *ssa.Call, callee *ssa.Function, args [
 		return
 	}
 	if !isRepoFn(callee) {
-		setResult(x.stdlib(st, callee, args, site))
+		full := callee.String()
+		if i := strings.Index(full, "["); i >= 0 {
+			full = full[:i]
+		}
+		x.traceCall(st, full, append([]Val{{}}, args...), site) // args[0] is kept free so that indices match method-style events
+		rv := x.stdlib(st, callee, args, site)
+		if n := len(st.trace); n > 0 && st.trace[n-1].name == full {
+			st.trace[n-1].res = rv
+			st.trace[n-1].args = args
+		}
+		setResult(rv)
 		return
 	}
 	if con := x.w.Contracts[key]; con != nil && !con.Inline {
@@ -225,6 +236,11 @@ func (x *Exec) callContract(st *State, con *Contract, callee *ssa.Function, args
 		return "(and " + strings.Join(cs, " ") + ")"
 	}
 	for _, cl := range con.Ensures {
+		if usesTrace(cl) {
+			// a clause about the callee's own ghost call trace says nothing a caller can use (and must not be evaluated
+			// over the caller's trace)
+			continue
+		}
 		x.assume(st, x.clauseTerm(st, cl, env))
 	}
 	for _, nm := range freshNew {
@@ -1122,4 +1138,30 @@ func (w *World) mutableCapture(top *ssa.Function, name string) bool {
 		return false
 	}
 	return scan(top)
+}
+
+var traceBuiltins = map[string]bool{"ncalls": true, "callArg": true, "callResult": true, "callOrder": true, "atCall": true, "traceSeq": true, "fullSeq": true}
+
+// usesTrace: the clause mentions the ghost call trace of its own unit.
+func usesTrace(cl *Clause) bool {
+	if cl.Fn == nil {
+		return false
+	}
+	found := false
+	ast.Inspect(cl.Fn.Decl.Body, func(n ast.Node) bool {
+		if ce, ok := n.(*ast.CallExpr); ok {
+			switch f := ce.Fun.(type) {
+			case *ast.Ident:
+				if traceBuiltins[f.Name] {
+					found = true
+				}
+			case *ast.IndexExpr:
+				if id, ok := f.X.(*ast.Ident); ok && traceBuiltins[id.Name] {
+					found = true
+				}
+			}
+		}
+		return !found
+	})
+	return found
 }
